@@ -287,6 +287,15 @@ func check(prop, tier string) int {
 			}
 		}
 		busy := startLoad > 8
+		// the load may have risen after this check started (several checks started at the same moment on an idle
+		// machine): look again now - at this point this check's own solvers have finished
+		if b, err := os.ReadFile("/proc/loadavg"); err == nil {
+			nowLoad := 0.0
+			fmt.Sscanf(string(b), "%f", &nowLoad)
+			if nowLoad > 8 {
+				busy = true
+			}
+		}
 		// only when the machine is busy: on an idle machine a timeout is what it says
 		if busy && len(again) > 0 && len(again) <= 12 {
 			var obs []*vc.Obligation
